@@ -70,7 +70,7 @@ def _gen_lr(r: Any) -> Any:
 
 def _gen_build(r: Any) -> Dict[str, Any]:
     allow = r.random() < 0.35
-    form = r.choice(["groups", "groups", "list", "generator", "group_generator"])
+    form = r.choice(["groups", "groups", "list", "generator", "group_generator", "mixed", "mixed_generator"])
     via = r.choice(["sp+SGD", "sp+AdamW", "sp+Adam", "sp", "uu.SGD", "uu.AdamW", "uu.Adam"])
     ngroups = r.choice([1, 2, 3, 4, 5, 6])
     glr = _gen_lr(r) if r.random() < 0.8 else None
@@ -78,7 +78,9 @@ def _gen_build(r: Any) -> Dict[str, Any]:
     groups = []
     for _ in range(ngroups):
         g: Dict[str, Any] = {"params": [_gen_param(r, allow) for _ in range(r.choice([1, 1, 2, 3, 5]))]}
-        if form in ("groups", "group_generator"):
+        if form in ("mixed", "mixed_generator"):
+            g["bare"] = r.random() < 0.5  # this entry is passed as bare tensors, the others as dicts
+        if form in ("groups", "group_generator", "mixed", "mixed_generator"):
             if glr is None or r.random() < 0.5:
                 g["lr"] = "shared" if shared_tensor and r.random() < 0.7 else _gen_lr(r)
             if r.random() < 0.5:
@@ -248,7 +250,7 @@ def _build(w: World, spec: Dict[str, Any], res: Dict[str, Any], reject: Optional
             ps = [p for p in ps if has_parameter_data(p)]
         if not ps:
             continue
-        if form in ("groups", "group_generator"):
+        if form in ("groups", "group_generator") or (form in ("mixed", "mixed_generator") and not g.get("bare")):
             d: Dict[str, Any] = {"params": ps}
             if "lr" in g:
                 d["lr"] = shared if g["lr"] == "shared" else _mk_lr(g["lr"])
@@ -278,13 +280,14 @@ def _build(w: World, spec: Dict[str, Any], res: Dict[str, Any], reject: Optional
         for d in groups:
             if isinstance(d, dict) and "lr" not in d:
                 d["lr"] = 0.5
-        if form in ("list", "generator"):
+        if form in ("list", "generator", "mixed", "mixed_generator"):
             glr = 0.5
     if not groups:
         return
-    if any_tensor_lr and form in ("groups", "group_generator") and via != "sp":
+    if any_tensor_lr and via != "sp":
         for d in groups:
-            d.setdefault("foreach", False)  # torch: tensor lr needs foreach=False
+            if isinstance(d, dict):
+                d.setdefault("foreach", False)  # torch: tensor lr needs foreach=False
 
     injected = None
     if reject is not None:
@@ -302,7 +305,7 @@ def _build(w: World, spec: Dict[str, Any], res: Dict[str, Any], reject: Optional
         if what == "no_lr":
             injected = {"params": [bad_p]}  # a group without lr, and no global lr either
         else:
-            injected = {"params": [bad_p]} if form in ("groups", "group_generator") else bad_p
+            injected = {"params": [bad_p]} if form in ("groups", "group_generator", "mixed", "mixed_generator") else bad_p
             if isinstance(injected, dict) and glr is None:
                 injected["lr"] = 0.5
         groups_bad = groups[:pos] + [injected] + groups[pos:]
@@ -313,7 +316,7 @@ def _build(w: World, spec: Dict[str, Any], res: Dict[str, Any], reject: Optional
                           allow_non_unit_scaling_params=False)
         raised: Optional[BaseException] = None
         try:
-            arg = (x for x in groups_bad) if form in ("generator", "group_generator") else groups_bad
+            arg = (x for x in groups_bad) if form in ("generator", "group_generator", "mixed_generator") else groups_bad
             lr_bad = None if what == "no_lr" else glr
             uo.scaled_parameters(arg, _lr_func(spec["lr_func"]), lr=lr_bad, **kwargs_bad)
         except ValueError as e:
@@ -331,7 +334,7 @@ def _build(w: World, spec: Dict[str, Any], res: Dict[str, Any], reject: Optional
     w.spec = spec
     w.flat_params = flat
     w.src_group_of = src
-    is_gen = form in ("generator", "group_generator")
+    is_gen = form in ("generator", "group_generator", "mixed_generator")
     w.caller_groups = groups
     w.caller_snapshot = _snapshot(groups)
     w.caller_lr_tensors = [t for t in ([glr] + [g.get("lr") for g in groups if isinstance(g, dict)])
